@@ -93,6 +93,39 @@ func vf19NewIdent(base vfParrot, custom bool, drop map[string]bool) (*vf19Ident,
 			id.Name += "-no-" + strings.Join(d, "-no-")
 		}
 	}
+	if base.ID.Client == helloGolang && !id.Custom {
+		// HelloGolang has no spec: read what it offers from a hello built by the library's own code path
+		cp, _ := vfPipe()
+		defer cp.Close()
+		uc := UClient(cp, &Config{ServerName: "probe.c19.test", ClientSessionCache: NewLRUClientSessionCache(1)}, HelloGolang)
+		if err := uc.BuildHandshakeState(); err != nil {
+			return nil, err
+		}
+		raw, err := uc.HandshakeState.Hello.Marshal()
+		if err != nil {
+			return nil, err
+		}
+		h := vfParseClientHello(raw)
+		id.HasTicket, id.HasEMS, id.HasPSK = h.Ext(35) != nil, h.Ext(23) != nil, true // pre_shared_key is added when a session is cached
+		if e := h.Ext(45); e != nil {
+			for _, m := range e.Body[1:] {
+				if m == 1 {
+					id.HasModesDHE = true
+				}
+			}
+		}
+		id.MaxVers = VersionTLS13
+		shared := map[uint16]bool{}
+		for _, ks := range h.KeyShares() {
+			shared[ks.Group] = true
+		}
+		for _, g := range h.Groups() {
+			if !shared[g] && (g == uint16(CurveP256) || g == uint16(CurveP384) || g == uint16(CurveP521)) && id.HRRGroup == 0 {
+				id.HRRGroup = CurveID(g)
+			}
+		}
+		return id, nil
+	}
 	spec, err := id.spec()
 	if err != nil {
 		return nil, err
@@ -155,8 +188,10 @@ func vf19GenIdent(rt *rapid.T, label string) *vf19Ident {
 	switch k := rapid.IntRange(0, 99).Draw(rt, label+"_kind"); {
 	case k < 40:
 		id, err = vf19NewIdent(vf19PSKParrots[rapid.IntRange(0, len(vf19PSKParrots)-1).Draw(rt, label+"_psk")], false, nil)
-	case k < 65:
+	case k < 60:
 		id, err = vf19NewIdent(vfGenParrot(rt, label+"_parrot"), false, nil)
+	case k < 65:
+		id, err = vf19NewIdent(vfParrot{"HelloGolang", HelloGolang}, false, nil)
 	default:
 		base := vf19CustomBases[rapid.IntRange(0, len(vf19CustomBases)-1).Draw(rt, label+"_base")]
 		mask := rapid.IntRange(0, 7).Draw(rt, label+"_drop")
@@ -757,7 +792,7 @@ func TestVerifC19StateMachine(t *testing.T) {
 		npool := rapid.IntRange(1, 3).Draw(rt, "npool")
 		var pool []*vf19Ident
 		for i := 0; i < npool; i++ {
-			if i > 0 && rapid.IntRange(0, 2).Draw(rt, fmt.Sprintf("ident%d_variant", i)) == 0 {
+			if i > 0 && pool[0].Base.ID.Client != helloGolang && rapid.IntRange(0, 2).Draw(rt, fmt.Sprintf("ident%d_variant", i)) == 0 {
 				// the same browser with a different set of session extensions (Roller-style fingerprint mixing)
 				mask := rapid.IntRange(1, 7).Draw(rt, fmt.Sprintf("ident%d_vdrop", i))
 				id, err := vf19NewIdent(pool[0].Base, true, map[string]bool{"ems": mask&1 != 0, "ticket": mask&2 != 0, "psk": mask&4 != 0})
@@ -933,6 +968,18 @@ func TestVerifC19Directed(t *testing.T) {
 		w.connect(t, vf19Conn{Ident: b, Name: vf19Names[2], SrvMax: VersionTLS12, OmitPSK: true})
 		w.connect(t, vf19Conn{Ident: b, Name: vf19Names[2], SrvMax: VersionTLS13, OmitPSK: true})
 		w.connect(t, vf19Conn{Ident: a, Name: vf19Names[2], SrvMax: VersionTLS12, OmitPSK: true})
+		w.finish()
+	}
+	// (g) HelloGolang (session loaded inside the handshake, the only identity for which PSK + HelloRetryRequest is implemented)
+	{
+		w := vf19NewWorld(st)
+		g := mk(vfParrot{"HelloGolang", HelloGolang}, false)
+		for _, hrr := range []bool{false, false, true, true, true, false} {
+			w.connect(t, vf19Conn{Ident: g, Name: vf19Names[1], SrvMax: VersionTLS13, HRR: hrr})
+		}
+		for i := 0; i < 3; i++ {
+			w.connect(t, vf19Conn{Ident: g, Name: vf19Names[2], SrvMax: VersionTLS12})
+		}
 		w.finish()
 	}
 	// (b) PSK parrot + HelloRetryRequest
